@@ -304,7 +304,20 @@ R.exception_classes["ValidationError"] = "Exception"
 R.exception_classes["JSONDecodeError"] = "ValueError"
 R.contract("schemathesis.core.transport:Response.json", args={"self": Opq("Any")}, returns=Opq("JsonData"), raises=["JSONDecodeError"], trusted=True,
            effects={"parsed": "raised is None"}, note="E5 json.loads of the body: a document or JSONDecodeError")
-R.contract(MT + "is_json", args={"value": Str}, returns=Bool, pure=True, trusted=True, note="application/json or +json suffix (over media_types.parse, stand-in)")
+R.contract(
+    MT + "is_json",
+    prop="C04",
+    args={"value": Str},
+    returns=Bool,
+    pure=True,
+    raises=["MalformedMediaType"],
+    ensures={
+        # RFC 6839 / OpenAPI: a JSON body is `application/json` or a structured-syntax suffix `application/<x>+json` - nothing else (not `application/geojson`, not `text/json`)
+        "json_means_application_json_or_plus_json_suffix": "iff(result, mt_main(value) == 'application' and (mt_sub(value) == 'json' or mt_sub(value).endswith('+json')))",
+    },
+    raises_ensures={"raises_only_for_a_malformed_media_type": "not mt_ok(value)"},
+    call_ensures={},
+)
 R.alias("is_json", MT + "is_json")
 for _f in ("schemathesis.core.failures:MalformedJson.from_exception", "schemathesis.openapi.checks:JsonSchemaError.from_exception"):
     R.contract(_f, abstract_only=True, args={}, returns=(lambda cls: (lambda it, env: it.make_exc(it.resolve_exc_class(cls, None), ())))(_f.rsplit(".", 1)[0]),
@@ -358,7 +371,7 @@ R.contract(
     args={"self": SelfV, "operation": OpObj(DictOf(required={"default": RespDef})), "response": RespV},
     requires=list(VR_REQUIRES),
     ghost=dict(VR_GHOST),
-    raises=["Failure", "FailureGroup"],
+    raises=["Failure", "FailureGroup", "MalformedMediaType"],
     ensures={
         # a deviating response is never passed: with a documented schema the Content-Type must be there, and a JSON body must have been validated against THAT schema and be valid
         "passes_only_if_conforming": "has_ct(response) and implies(is_json(ct_of(response)), "
@@ -369,7 +382,7 @@ R.contract(
     },
     raises_ensures={
         # a conforming response never yields a failure
-        "fails_only_if_deviating": "not has_ct(response) or ghost('parsed') is False or ghost('valid') is False",
+        "fails_only_if_deviating": "not has_ct(response) or ghost('parsed') is False or ghost('valid') is False or (raised == 'MalformedMediaType' and not mt_ok(ct_of(response)))",
         "validated_against_the_schema_of_the_definition": "implies(ghost('validated') is not None, ghost('validated')[1] is ghost('schema'))",
         "schema_requested_for_the_received_media_type": "same_ct(ghost('asked_ct'), response)",
     },
